@@ -55,7 +55,7 @@ func c02sched(tw *traceWriter, r *rand.Rand, hid *int, ng int) error {
 		{"identical+cleaner", withCleaner(ng-1, false)},
 		{"identical+cleaner-stale", withCleaner(ng-1, true)},
 		{"identical+addentry", func(n *c02names, lg *c02log) []schedOp {
-			ops := ident(ng - 1)(n, lg)
+			ops := ident(ng-1)(n, lg)
 			return append(ops, func() { n.cache.AddEntry(n.svc(1), n.authenticator(absAuth{0, 0, 1, 0})) })
 		}},
 	}
